@@ -1,5 +1,8 @@
 use std::ops::ControlFlow;
+#[cfg(not(tablegen_lsp_verif))]
 use std::sync::{Arc, RwLock};
+#[cfg(tablegen_lsp_verif)]
+use {crate::verif_hooks::RwLock, std::sync::Arc};
 
 use async_lsp::lsp_types::{
     notification, request, CompletionOptions, CompletionParams, CompletionResponse,
@@ -13,7 +16,10 @@ use async_lsp::lsp_types::{
 use async_lsp::router::Router;
 use async_lsp::{ClientSocket, LanguageClient, LanguageServer, ResponseError};
 use futures::future::{ready, BoxFuture};
+#[cfg(not(tablegen_lsp_verif))]
 use tokio::task::{self};
+#[cfg(tablegen_lsp_verif)]
+use crate::verif_hooks::task;
 
 use ide::analysis::{Analysis, AnalysisHost};
 use ide::file_system::FileSystem;
@@ -295,6 +301,8 @@ impl Server {
                 let file_uri = UrlExt::from_file_path(file_path);
 
                 let params = PublishDiagnosticsParams::new(file_uri, lsp_diags, Some(diag_version));
+                #[cfg(tablegen_lsp_verif)]
+                ide::verif_hooks::hooks().point("publish");
                 client
                     .publish_diagnostics(params)
                     .expect("failed to publish diagnostics");
